@@ -307,6 +307,16 @@ func init() {
 				model.Ternary{C: model.Lit{V: model.Int(0)}, A: model.Lit{V: model.Int(1)}, B: model.Ternary{C: model.Lit{V: model.Str("")}, A: model.Lit{V: model.Int(1)},
 					B: model.Ternary{C: model.Binary{Op: "/", L: model.Lit{V: model.Int(1)}, R: model.Lit{V: model.Int(0)}}, A: model.Lit{V: model.Int(1)}, B: model.Lit{V: model.Int(0)}}}},
 				model.Ternary{C: model.Lit{V: model.Int(0)}, A: model.Lit{V: model.Int(1)}, B: model.Paren{X: model.Ternary{C: model.Dot{X: model.Lit{V: model.Int(3)}, Name: "k"}, A: model.Lit{V: model.Int(1)}, B: model.Lit{V: model.Int(0)}}}},
+				// faults that are visible in the source alone (they still belong to evaluation, not to parsing)
+				model.Unary{Op: "-", X: model.Lit{V: model.Str("x")}},
+				model.Unary{Op: "-", X: model.Lit{V: model.Bool(true)}},
+				model.Unary{Op: "-", X: model.Lit{V: model.Nil}},
+				model.Call{X: model.Lit{V: model.Str("s")}, Name: "noSuchFunction"},
+				model.Index{X: model.Lit{V: model.Int(5)}, I: model.Lit{V: model.Int(0)}},
+				model.Binary{Op: "<", L: model.Lit{V: model.Str("a")}, R: model.Lit{V: model.Int(1)}},
+				model.Binary{Op: "*", L: model.Lit{V: model.Bool(true)}, R: model.Lit{V: model.Bool(true)}},
+				model.Postfix{Op: "++", X: model.Lit{V: model.Str("s")}},
+				model.Call{X: model.Lit{V: model.Int(1)}, Name: "decimal", Args: []model.Expr{model.Lit{V: model.Int(1)}}},
 			}
 			type ecell struct {
 				shape  ifShape
@@ -344,10 +354,10 @@ func init() {
 					judgeProgram(c, prog, data, "failing-cond", true)
 				}})
 			// (4) ternary over the whole table, arms traced, and failing arms
-			secs = append(secs, core.Section{Name: "ternary", Exhaustive: true, N: len(condTable) * 2 * 3,
+			secs = append(secs, core.Section{Name: "ternary", Exhaustive: true, N: len(condTable) * 2 * 7,
 				Run: func(c *core.Ctx, i int) {
-					variant := i % 3
-					i /= 3
+					variant := i % 7
+					i /= 7
 					asData := i%2 == 1
 					cv := condTable[i/2]
 					data := map[string]model.Value{}
@@ -360,6 +370,14 @@ func init() {
 						a = model.Var{Name: "undefinedName"}
 					case 2:
 						b = model.Binary{Op: "%", L: model.Lit{V: model.Int(1)}, R: model.Lit{V: model.Int(0)}}
+					case 3:
+						a = model.Unary{Op: "-", X: model.Lit{V: model.Str("yes")}}
+					case 4:
+						b = model.Unary{Op: "-", X: model.Lit{V: model.Str("no")}}
+					case 5:
+						a = model.Call{X: model.Lit{V: model.Str("s")}, Name: "noSuchFunction"}
+					case 6:
+						b = model.Binary{Op: "+", L: model.Lit{V: model.Int(1)}, R: model.Lit{V: model.Str("s")}}
 					}
 					e := model.Ternary{C: condExpr(cv.v, 0, asData, data), A: a, B: b}
 					judgeProgram(c, []model.Stmt{model.Text{S: "<"}, model.Print{E: e}, model.Text{S: ">"}}, data, "ternary", true)
